@@ -1,7 +1,7 @@
 import Gv.Model.SW
 import Gv.Model.Phase
 /-!
-# The aligner behind phasing (C16): `ALIGN_ALGO_ATG` and the hit selection of `alignAgainstRefsNT`
+# The aligner behind phasing (C16): `ALIGN_ALGO_ATG` and the hit selection of `alignAgainstRefsNT` / `alignAgainstRefsAA`
 
 `align/aligner.go`, algorithm `ALIGN_ALGO_ATG` — **as the code is**:
 
@@ -169,5 +169,103 @@ def phaseNT (c : NTCfg) (code : List (List Byte × Byte)) (orfs : List Seq) (seq
       -- of an inverted range is empty)
       if h.seqstart > bestend then NTOut.panic
       else NTOut.ok (assembleNT code tmp h c.cutend) h
+
+/-! ## `alignAgainstRefsAA` (translate mode, the default of `goalign phase`)
+
+For every reference protein and every reading frame of the sequence — forward frames 0, 1, 2, then (with
+`reverse`) frames 0, 1, 2 of the reverse-complemented copy — the frame is translated (`Sequence.Translate`,
+a frame that leaves fewer than 3 nucleotides is an error of the whole call), the reference is aligned against
+the translation with the `ALIGN_ALGO_ATG` aligner (matrix chosen from the residues by `NewPwAligner`: BLOSUM62
+in general, DNAfull when both proteins happen to be spelt with nucleotide codes), the first strictly best score
+wins, and the amino-acid coordinates of that hit are converted to nucleotide coordinates
+(`beststart = phase%3 + 3·seqstart`).  The length / match cut-offs are switched off (the harness sets them
+to −1), as for `phaseNT`. -/
+
+/-- what `Phase()` does with the reference bag before the workers start, in BOTH modes: a bag whose alphabet is
+`NUCLEOTIDS` is cloned and translated in frame 0 (`SeqBag.Translate(0, code)`: a reference that is not
+nucleotide-compatible on its own, or shorter than a codon, makes `Phase()` return an error — `none`); any other
+bag is taken as it is.  The result is what `alignAgainstRefsAA` receives (`alignAgainstRefsNT` receives the
+untranslated references). -/
+def phaseRefsAA (code : List (List Byte × Byte)) (alphabet : Nat) (refs : List Seq) : Option (List Seq) :=
+  if alphabet == NUCLEOTIDS then refs.mapM (bufferTranslate code 0) else some refs
+
+/-- `bestscore`, `bestseq` / `bestseqaa` / `beststart(aa)` / `bestend(aa)` (`hit = none` is `bestseq == nil`).
+The hit keeps `phase % 3` as its frame and the amino-acid positions `seqstart`, `seqend`. -/
+structure AABest where
+  score : Int := 0
+  hit : Option Hit := none
+  /-- Go's `seqend` of the kept hit is `-1` (the trace-back consumed no residue of the translated sequence), so
+  that `seqend + 1 = 0`; `hit.seqend` is then meaningless -/
+  noRes : Bool := false
+  deriving Repr, DecidableEq
+
+inductive AAStep
+  | go (b : AABest)
+  | err
+  | panic
+  deriving Repr, DecidableEq
+
+/-- one pass of the inner loop body: reference `orfaa`, `phase` in `0..5` (`phase < 3`: the sequence, else its
+reverse-complemented copy; reading frame `phase % 3`) -/
+def aaStep (c : NTCfg) (code : List (List Byte × Byte)) (seq orfaa : Seq) (best : AABest) (phase : Nat) : AAStep :=
+  let rev := decide (3 ≤ phase)
+  let tmp := if rev then revcompIgnoringError seq else seq
+  match bufferTranslate code (phase % 3) tmp with
+  | none => AAStep.err                          -- "error while translating"
+  | some seqaa =>
+    match alignATG (c.aligner orfaa seqaa) c.fixed orfaa seqaa with
+    | .err => AAStep.err                        -- "error while aligning"
+    | .panic => AAStep.panic
+    | .ok r =>
+      if r.score > best.score then
+        AAStep.go ⟨r.score, some ⟨rev, phase % 3, r.start2.toNat, r.end2.toNat⟩, decide (r.end2 < 0)⟩
+      else AAStep.go best
+
+/-- `for phase = 0; phase < phases; phase++` with `phases = 3` or `6` -/
+def aaPhases (c : NTCfg) : List Nat := if c.reverse then [0, 1, 2, 3, 4, 5] else [0, 1, 2]
+
+/-- the inner loop: the frames of one reference -/
+def aaFrames (c : NTCfg) (code : List (List Byte × Byte)) (seq orfaa : Seq) : List Nat → AABest → AAStep
+  | [], best => AAStep.go best
+  | ph :: rest, best =>
+    match aaStep c code seq orfaa best ph with
+    | .go b => aaFrames c code seq orfaa rest b
+    | o => o
+
+/-- the outer loop: the references in order -/
+def aaSelect (c : NTCfg) (code : List (List Byte × Byte)) (seq : Seq) : List Seq → AABest → AAStep
+  | [], best => AAStep.go best
+  | orfaa :: rest, best =>
+    match aaFrames c code seq orfaa (aaPhases c) best with
+    | .go b => aaSelect c code seq rest b
+    | o => o
+
+/-- `alignAgainstRefsAA(seq, orfsaa)`: `orfsaa` are the reference PROTEINS (`phaseRefsAA`).  `NTOut.panic` stands
+for an out-of-range slice expression (`[beststart:bestend]` of the strand, `[beststartaa:bestendaa]` of its
+translation): `Props.C16.phase_aa_never_panics` shows that the repaired aligner never leads there. -/
+def phaseAA (c : NTCfg) (code : List (List Byte × Byte)) (orfsaa : List Seq) (seq : Seq) : NTOut :=
+  match aaSelect c code seq orfsaa {} with
+  | .err => NTOut.err
+  | .panic => NTOut.panic
+  | .go best =>
+    match best.hit with
+    | none => NTOut.removed (noHit seq)        -- `bestseq == nil`
+    | some h =>
+      let tmp := strandOf seq h
+      let seqaa := codonsFrom code (tmp.drop h.frame)
+      let endaa := if best.noRes then 0 else h.seqend + 1          -- Go `seqend + 1`
+      let beststart := h.frame + h.seqstart * 3
+      let bestend := if c.cutend then h.frame + endaa * 3 else tmp.length
+      let bestendaa := if c.cutend then endaa else seqaa.length
+      if beststart > bestend || bestend > tmp.length || h.seqstart > bestendaa || bestendaa > seqaa.length then
+        NTOut.panic
+      else if best.noRes && c.cutend then NTOut.ok ⟨beststart, [], [], some []⟩ h   -- `[frame:frame]`, `[0:0]`
+      else NTOut.ok (assembleAA code tmp h c.cutend) h
+
+/-- `Phase(orfs, {seq})` in translate mode, one sequence: `none` = `Phase()` itself returned an error (a reference
+could not be translated) -/
+def phaseAAOfRefs (c : NTCfg) (code : List (List Byte × Byte)) (alphabet : Nat) (refs : List Seq) (seq : Seq) :
+    Option NTOut :=
+  (phaseRefsAA code alphabet refs).map fun orfsaa => phaseAA c code orfsaa seq
 
 end Gv.Model.PhaseAlign
